@@ -16,6 +16,7 @@
 package main
 
 import (
+	"bytes"
 	"fmt"
 	"net/url"
 	"strings"
@@ -44,7 +45,14 @@ func render(ret int, resp *bfe_http.Response) string {
 		if resp == nil {
 			return "resp:nil"
 		}
-		return fmt.Sprintf("resp:%d:%s", resp.StatusCode, vh.Hex([]byte(resp.Header.Get("WWW-Authenticate"))))
+		// what reaches the wire: Header.Write replaces CR/LF by spaces, so one value must stay one line
+		var buf bytes.Buffer
+		resp.Header.Write(&buf)
+		inj := ""
+		if strings.Count(buf.String(), "\r\n") != len(resp.Header) || strings.Count(buf.String(), "\n") != len(resp.Header) {
+			inj = ":header-injection"
+		}
+		return fmt.Sprintf("resp:%d:%s%s", resp.StatusCode, vh.Hex([]byte(resp.Header.Get("WWW-Authenticate"))), inj)
 	}
 	return fmt.Sprintf("ret:%d", ret)
 }
@@ -132,11 +140,34 @@ func exec(op string) string {
 		if len(f) == 5 {
 			return execBlockReq(f)
 		}
+	case "lu":
+		if len(f) == 1 {
+			return execLoadUser(f)
+		}
+	case "ls":
+		if len(f) == 2 {
+			return execLoadSlink(f)
+		}
+	case "lb":
+		if len(f) == 3 {
+			return execLoadBlock(f)
+		}
+	case "li":
+		if len(f) == 3 {
+			return execLoadIP(f)
+		}
+	case "lk":
+		if len(f) == 2 {
+			return execLoadKeys(f)
+		}
 	}
 	return "bad-op"
 }
 
 func gen(r *vh.Rand) string {
+	if r.Chance(1, 6) {
+		return genLoad(r)
+	}
 	switch r.Intn(10) {
 	case 0, 1, 2:
 		return genBasic(r)
